@@ -33,13 +33,18 @@ def wire_bytes(typ: str, v: Any) -> bytes:
     return struct.pack(f'<{len(v)}f', *v)
 
 
-def _nl(b: bytes) -> str:
+def _nl(b) -> str:
     return '[' + ';'.join(str(x) for x in b) + ']'
+
+
+def _enc(x: str, encoding: str):
+    """The string as the numbers of a Coq literal: its bytes in the given codec, or its code points for 'cps'."""
+    return [ord(c) for c in x] if encoding == 'cps' else x.encode(encoding)
 
 
 def coq_attr(rec: list, encoding: str) -> str:
     def s(x: str) -> str:
-        return _nl(x.encode(encoding))
+        return _nl(_enc(x, encoding))
     name, typ, is_arr, vals = rec
     if typ == 'ELEMENT':
         items = ['RNull' if v is None else (f'(RElem {v})' if isinstance(v, int)
@@ -58,7 +63,7 @@ def coq_attr(rec: list, encoding: str) -> str:
 def coq_doc(c: dict, encoding: str) -> str:
     """A canonical spec as a Coq [doc] literal; strings are pre-encoded (the model runs with the identity codec)."""
     def s(x: str) -> str:
-        return _nl(x.encode(encoding))
+        return _nl(_enc(x, encoding))
     els = []
     for e in c['elems']:
         attrs = [coq_attr(a, encoding) for a in e['attrs']]
@@ -70,7 +75,7 @@ def coq_doc(c: dict, encoding: str) -> str:
 def coq_rdoc(c: dict, encoding: str) -> str:
     """The real dicts of a canonical graph (U.canon: 'members', the name member included) as a Coq [rdoc] literal."""
     def s(x: str) -> str:
-        return _nl(x.encode(encoding))
+        return _nl(_enc(x, encoding))
     els = []
     for e in c['elems']:
         ms = [f'({s(k)}, {coq_attr(rec, encoding)})' for k, rec in e['members']]
@@ -105,30 +110,32 @@ Definition odoc_eqb (a b : option doc) := match a, b with Some x, Some y => leqb
    3 the export of the real dicts (count expression and loop filters read from the source) differs from the bytes,
    4 the document the real dicts denote differs from the document the harness computed from the spec and its history,
    5 the dicts the reader model builds from the parsed document (key expression read from the source) differ from the
-     dicts of the elements Element.parse returned (given when every attribute name is ASCII: casefold = A-Z -> a-z) *)
-Definition ascii_lower (s : str) : str := map (fun c => if (65 <=? c) && (c <=? 90) then c + 32 else c) s.
+     dicts of the elements Element.parse returned *)
 Definition members_eqb (a b : members) := leqb (fun x y : str * attr => nl_eqb (fst x) (fst y) && attr_eqb (snd x) (snd y)) a b.
+(* codes 5 and 6 work on code points (the literals pcp / prcp / rdcp / kv hold code points, not bytes) with str.casefold as the
+   per-character table regenerated from the running CPython (gen_fold): names outside ASCII included *)
 Definition reader_dicts_ok (p : option doc) (pr : option rdoc) : bool :=
   match p, pr with
-  | Some pd, Some prd => leqb members_eqb (map (parsed_members ascii_lower (pk_bin gen_parse)) pd) (map r_members prd)
+  | Some pd, Some prd => leqb members_eqb (map (parsed_members gen_fold (pk_bin gen_parse)) pd) (map r_members prd)
   | _, _ => true
   end.
 (* 6: the same graph through KeyValues2 (flat layout): keys and spellings of the dict the model of the KV2 writer + reader
    gives for every exported dict (skip test, name test and key expression read from the source) differ from the dicts
-   of the elements Element.parse returned (given when every name is ASCII) *)
+   of the elements Element.parse returned *)
 Definition shape_of (m : members) : list (str * str) := map (fun ka : str * attr => (fst ka, aname (snd ka))) m.
 Definition kv2_dicts_ok (rd : rdoc) (kv : option (list (list (str * str)))) : bool :=
   match kv with
   | Some l => leqb (leqb (fun x y : str * str => nl_eqb (fst x) (fst y) && nl_eqb (snd x) (snd y)))
-                (map (fun r => shape_of (kv2_read ascii_lower gen_kv2_name_test (pk_kv2_attr gen_parse) [] (kv2_written gen_cnt gen_kv2_skip (r_members r)))) rd) l
+                (map (fun r => shape_of (kv2_read gen_fold gen_kv2_name_test (pk_kv2_attr gen_parse) [] (kv2_written gen_cnt gen_kv2_skip (r_members r)))) rd) l
   | None => true
   end.
-Definition chk (c : N * doc * bytes * option doc * rdoc * option rdoc * option (list (list (str * str)))) : N := let '(v, d, b, p, rd, pr, kv) := c in
+Definition chk (c : N * doc * bytes * option doc * rdoc * option doc * option rdoc * rdoc * option (list (list (str * str)))) : N :=
+  let '(v, d, b, p, rd, pcp, prcp, rdcp, kv) := c in
   if nl_eqb (export_bin idenc gen_cfg v d) b
   then (if odoc_eqb (parse_bin iddec gen_cfg v b) p
         then (if nl_eqb (export_raw idenc gen_cfg gen_cnt v rd) b
               then (if odoc_eqb (Some (map (abstract gen_cnt) rd)) (Some d)
-                    then (if reader_dicts_ok p pr then (if kv2_dicts_ok rd kv then 0 else 6) else 5) else 4) else 3)
+                    then (if reader_dicts_ok pcp prcp then (if kv2_dicts_ok rdcp kv then 0 else 6) else 5) else 4) else 3)
         else 2)
   else 1.
 Fixpoint bad_idx {A} (f : A -> N) (n : N) (l : list A) : list N := match l with [] => [] | x :: r => (if f x =? 0 then [] else [n * 10 + f x]) ++ bad_idx f (n + 1) r end.
@@ -278,32 +285,35 @@ def corr_binary(ck: Ck) -> None:
             ck.hist('corr_binary_name_member', 'missing' if not e['has_name'] else ('first' if not e['name_pos'] else 'later'))
         cut = data.find(b'-->\n\0')
         body = data[cut + 5:]
-        prl = 'None'
+        prl = pcl = 'None'
         try:
             got, _, _ = dmx.Element.parse(io.BytesIO(data), unicode=(mode['unicode'] == 'silent'))
             cg = U.canon(got)
             parsed = coq_doc(cg, 'utf8')
             pl = f'(Some {parsed})'
-            if all(e['members'] is not None and all(rec[0].isascii() for _, rec in e['members']) for e in cg['elems']):
-                prl = f'(Some {coq_rdoc(cg, "utf8")})'       # the dicts of the parsed elements, keys included
+            if all(e['members'] is not None for e in cg['elems']):
+                pcl = f'(Some {coq_doc(cg, "cps")})'
+                prl = f'(Some {coq_rdoc(cg, "cps")})'       # the dicts of the parsed elements, keys included, as code points
                 ck.count('corr_binary_reader_dicts')
+                ck.hist('corr_binary_reader_dict_names', 'ascii' if all(rec[0].isascii() for e in cg['elems'] for _, rec in e['members']) else 'non-ascii')
         except Exception:
             pl = 'None'
             ck.count('corr_binary_impl_parse_error')
         kvl = 'None'
-        if all(rec[0].isascii() for e in real['elems'] for _, rec in e['members']):
-            try:      # the same graph through KeyValues2, flat layout (every element a top-level block): keys and spellings of the parsed dicts
-                buf2 = io.BytesIO()
-                U.build(spec)[0].export_kv2(buf2, flat=True, unicode=mode['unicode'])
-                g2, _, _ = dmx.Element.parse(io.BytesIO(buf2.getvalue()), unicode=(mode['unicode'] == 'silent'))
-                c2 = U.canon(g2)
-                if len(c2['elems']) == len(real['elems']) and all(e['members'] is not None for e in c2['elems']):
-                    kvl = '(Some ' + coq_list(coq_list(f'({_nl(k.encode("utf8"))}, {_nl(rec[0].encode("utf8"))})' for k, rec in e['members'])
-                                              for e in c2['elems']) + ')'
-                    ck.count('corr_binary_kv2_dicts')
-            except Exception:
-                ck.count('corr_binary_kv2_error')
-        cases.append((mode, spec, f'({mode["version"]}, {coq_doc(c, "utf8")}, {_nl(body)}, {pl}, {coq_rdoc(real, "utf8")}, {prl}, {kvl})'))
+        try:      # the same graph through KeyValues2, flat layout (every element a top-level block): keys and spellings of the parsed dicts
+            buf2 = io.BytesIO()
+            uni2 = mode['unicode'] if all(x.isascii() for x in _all_strings(spec)) or mode['unicode'] != 'ascii' else 'format'
+            U.build(spec)[0].export_kv2(buf2, flat=True, unicode=uni2)
+            g2, _, _ = dmx.Element.parse(io.BytesIO(buf2.getvalue()), unicode=(uni2 == 'silent'))
+            c2 = U.canon(g2)
+            if len(c2['elems']) == len(real['elems']) and all(e['members'] is not None for e in c2['elems']):
+                kvl = '(Some ' + coq_list(coq_list(f'({_cps(k)}, {_cps(rec[0])})' for k, rec in e['members'])
+                                          for e in c2['elems']) + ')'
+                ck.count('corr_binary_kv2_dicts')
+        except Exception:
+            ck.count('corr_binary_kv2_error')
+        cases.append((mode, spec, f'({mode["version"]}, {coq_doc(c, "utf8")}, {_nl(body)}, {pl}, {coq_rdoc(real, "utf8")}, {pcl}, {prl}, '
+                                  f'{coq_rdoc(real, "cps")}, {kvl})'))
         ck.count('corr_binary_cases')
         ck.hist('corr_binary_version', mode['version'])
         if len(c['elems']) > 1 or any(e['attrs'] for e in c['elems']):
